@@ -311,6 +311,36 @@ fn pair_strategy(max_len: usize) -> BoxedStrategy<Pair> {
                         Pair { a: D::new(ai.to_string(), a.scale), b }
                     }
                 }
+                11 | 12 | 13 => {
+                    // remainder next to half the divisor exactly at the rounding position:
+                    // a = Q*b + r with Q of exactly P (or more) digits and r in {floor(b/2), ceil(b/2), +-1}
+                    let p = build_cfg().precision as usize;
+                    let mut qs = q.trim_start_matches('-').to_string();
+                    if qs == "0" {
+                        qs = "7".into();
+                    }
+                    let base = qs.clone();
+                    while qs.len() < p {
+                        qs.push_str(&base);
+                    }
+                    let qlen = if special == 13 { p + (i as usize % 30) } else { p };
+                    qs.truncate(qlen.max(1));
+                    let qi = crate::conv::bigint(&qs);
+                    let bi = b.bigint();
+                    let babs = if bi < BigInt::from(0) { -bi.clone() } else { bi.clone() };
+                    let half: BigInt = &babs / 2;
+                    let r = match j % 5 {
+                        0 => half.clone(),
+                        1 => &babs - &half, // ceil(b/2)
+                        2 => &half - 1,
+                        3 => &half + 1,
+                        _ => (&babs - &half) + 1,
+                    };
+                    let r = if r < BigInt::from(0) || r >= babs { BigInt::from(0) } else { r };
+                    let ai = qi * &babs + r;
+                    let ai = if (i + j) % 2 == 1 { -ai } else { ai };
+                    Pair { a: D::new(ai.to_string(), a.scale), b }
+                }
                 8 => Pair { a: D::new(b.int.clone(), a.scale), b }, // equal unscaled integers, different scales
                 9 => Pair { a: D::new(small, a.scale), b },           // |a| << |b|
                 10 => Pair { a, b: D::new(if small == "0" { "3".into() } else { small }, b.scale) }, // |a| >> |b|
@@ -404,7 +434,7 @@ pub fn run(ctx: &Ctx) {
         check_pair,
     );
     let max_len = t.pick(300usize, 2000);
-    ctx.generated("random-pairs", "pair", t.pick(200_000, 2_000_000), "1..max digits, any scales/signs; divisors 2^i*5^j; terminating near 100 digits; a = q*b +- r with long q; equal integers; |a| << / >> |b|; zero divisors", move || pair_strategy(max_len), check_pair);
+    ctx.generated("random-pairs", "pair", t.pick(200_000, 2_000_000), "1..max digits, any scales/signs; divisors 2^i*5^j; terminating near 100 digits; a = q*b +- r with long q; equal integers; |a| << / >> |b|; remainders next to half the divisor at the rounding position (a = Q*b + b/2 +- 1 with Q of P digits); zero divisors", move || pair_strategy(max_len), check_pair);
     ctx.generated("random-prims", "prim", t.pick(100_000, 800_000), "random decimal x primitive integer of random type (specials 0, +-1, +-2, MIN, MAX), 9 overloads each", move || prim_strategy(max_len.min(150)), check_prim);
     ctx.generated("random-floats", "float", t.pick(60_000, 600_000), "random decimal x normal f32/f64 (specials +-1, +-2, 0.1, 3, 1e10; exponents within +-40), 9 overloads each", move || float_strategy(max_len.min(150)), check_float);
 }
